@@ -174,6 +174,9 @@ def gen(rng, tier):
                             if rep and rng.random() < 0.5:
                                 continue
                             cases.append({'kind': 'tool', 'tool': tool, 'codec': codec_opt, 'blocked': blocked_opt, 'file': f.hex(), 'hdr': name})
+                            if tool == 'mci_ipm_to_csv' and codec_opt == codec and rng.random() < 0.6:
+                                # the same without --in-encoding (the tool then goes by its own defaults / its inspection of the file)
+                                cases.append({'kind': 'tool', 'tool': tool, 'codec': codec_opt, 'blocked': blocked_opt, 'file': f.hex(), 'hdr': name, 'noenc': True})
     for n in (0, 3, 4, 8, 23, 24, 25, 1014, 2028):
         raw = bytes(rng.randrange(256) for _ in range(n))
         for tool in ('mci_ipm_to_csv', 'mideu_extract'):
@@ -219,6 +222,8 @@ def impl(case):
         with contextlib.redirect_stdout(io.StringIO()):
             if case['tool'] == 'mci_ipm_to_csv':
                 from cardutil.cli import mci_ipm_to_csv
+                if case.get('noenc'):
+                    return mci_ipm_to_csv.cli_run(**vars(mci_ipm_to_csv.cli_parser().parse_args([path, '-o', path + '.csv'] + ([] if case['blocked'] else ['--no1014blocking']))))
                 return mci_ipm_to_csv.cli_run(in_filename=path, out_filename=path + '.csv', in_encoding=case['codec'], no1014blocking=not case['blocked'])
             from cardutil.cli import mideu
             args = ['extract', path, '-s', 'ebcdic' if case['codec'] == 'cp500' else 'ascii'] + ([] if case['blocked'] else ['--no1014blocking'])
